@@ -20,6 +20,7 @@ import (
 	"sort"
 	"strconv"
 	"strings"
+	"time"
 
 	"github.com/sarchlab/akita/v4/mem/mem"
 	"github.com/sarchlab/akita/v4/sim"
@@ -128,22 +129,22 @@ type world struct {
 	byNm  map[sim.RemotePort]sim.Port
 	cyc   int
 
-	nRoot   int
-	root    map[string]int // message id -> root ordinal
-	lastReq map[int]map[string]mem.AccessReq
-	netReq  []mem.AccessReq
-	netRsp  []mem.AccessRsp
-	l2owed  []mem.AccessReq
-	phase   map[int]string
-	count   map[int]map[string]int
-	expect  map[int]map[string]int
-	stats   map[string]int
-	dead    bool
-	inFl    int // roots not yet answered (driver's own bookkeeping, not logged)
+	nRoot        int
+	root         map[string]int // message id -> root ordinal
+	lastReq      map[int]map[string]mem.AccessReq
+	netReq       []mem.AccessReq
+	netRsp       []mem.AccessRsp
+	l2owed       []mem.AccessReq
+	phase        map[int]string
+	count        map[int]map[string]int
+	expect       map[int]map[string]int
+	stats        map[string]int
+	dead         bool
+	inFl         int // roots not yet answered (driver's own bookkeeping, not logged)
 	lastProgress int
-	unit    uint64 // addresses are logged in this unit (1, or 64 on the real platform whose addresses exceed 2^31)
-	manual  bool   // the engines are ticked by calling Tick() (real platform: its own engine is never run)
-	nobank  bool   // do not log the L2 bank index (not part of the configuration under test)
+	unit         uint64 // addresses are logged in this unit (1, or 64 on the real platform whose addresses exceed 2^31)
+	manual       bool   // the engines are ticked by calling Tick() (real platform: its own engine is never run)
+	nobank       bool   // do not log the L2 bank index (not part of the configuration under test)
 }
 
 func (w *world) addr(a uint64) interface{} {
@@ -931,6 +932,18 @@ func tableRange(c *rdma.Comp, dst sim.RemotePort) (memRange, bool) {
 func platform(rec *ab.Recorder, gpuType string, n int, rng *rand.Rand, stats map[string]int) {
 	s := simulation.MakeBuilder().WithoutMonitoring().Build()
 	defer s.Terminate()
+	logged := false
+	defer func() {
+		// a panic of the real engine during the unlogged measurement is real-code behaviour too
+		if r := recover(); r != nil {
+			if !logged {
+				rec.Emit("Reset", ab.Rec{"comps": []int{}, "ranges": [][3]uint64{}, "il": 1, "nb": 0, "platform": gpuType, "ngpu": n})
+			}
+			rec.Emit("Panic", ab.Rec{"msg": fmt.Sprint(r), "during": "measuring the local ranges"})
+			stats["panics"]++
+			stats["platform_runs"]++
+		}
+	}()
 	timingconfig.MakeBuilder().WithSimulation(s).WithNumGPUs(n).WithGPUType(gpuType).Build()
 	cfg := Config{NGpu: n, Buf: 128}
 	ranges := map[int]memRange{}
@@ -954,6 +967,7 @@ func platform(rec *ab.Recorder, gpuType string, n int, rng *rand.Rand, stats map
 	}
 	rec.Emit("Reset", ab.Rec{"comps": cfg.Comps, "ranges": rl, "il": 1, "nb": 0, "buf": cfg.Buf, "ngpu": n,
 		"platform": gpuType, "unit": line})
+	logged = true
 	w := baseWorld(rec, cfg)
 	w.unit, w.manual, w.nobank = line, true, true
 	for g := 1; g <= n; g++ {
@@ -1042,11 +1056,11 @@ func sysrun(rec *ab.Recorder, spec string, stats map[string]int) {
 	}
 	d := s.GetComponentByName("Driver").(*driver.Driver)
 	d.Run()
-	func() {
+	done := make(chan string, 1)
+	go func() {
 		defer func() {
 			if r := recover(); r != nil {
-				w.dead = true
-				rec.Emit("Panic", ab.Rec{"msg": fmt.Sprint(r)})
+				done <- fmt.Sprint(r)
 			}
 		}()
 		switch f[0] {
@@ -1068,11 +1082,48 @@ func sysrun(rec *ab.Recorder, spec string, stats map[string]int) {
 		default:
 			panic("unknown workload " + f[0])
 		}
+		done <- ""
 	}()
-	d.Terminate()
-	s.Terminate()
-	if !w.dead {
-		rec.Emit("Quiesce", ab.Rec{"workload": spec})
+	// A hang is decided structurally: the workload has not returned although the driver's engine has
+	// been idle (no event left to run) at every one of 200 consecutive samples (100 ms apart).  The trace then ends
+	// with Quiesce and the trace spec decides whether the RDMA engines owe anything.
+	idle, hung := 0, false
+	for finished := false; !finished && !hung; {
+		select {
+		case msg := <-done:
+			finished = true
+			if msg != "" {
+				w.dead = true
+				rec.Emit("Panic", ab.Rec{"msg": msg})
+			}
+		case <-time.After(100 * time.Millisecond):
+			if d.VerifEngineRunning() {
+				idle = 0
+			} else {
+				idle++
+			}
+			hung = idle >= 200
+		}
+	}
+	if hung {
+		stats["hangs"]++
+		rec.Emit("Quiesce", ab.Rec{"workload": spec, "hang": 1})
+	} else {
+		// The workload returned; the engine goroutine may still be handling left-over events.  Quiesce is
+		// logged once the engine has been idle at 5 consecutive samples.  The simulation is deliberately not
+		// terminated (Simulation.Terminate while the engine goroutine is still alive makes the tracer panic
+		// with "assignment to entry in nil map"; the process exits right after anyway).
+		for idle = 0; idle < 5; {
+			time.Sleep(10 * time.Millisecond)
+			if d.VerifEngineRunning() {
+				idle = 0
+			} else {
+				idle++
+			}
+		}
+		if !w.dead {
+			rec.Emit("Quiesce", ab.Rec{"workload": spec})
+		}
 	}
 	for g := range w.comps {
 		stats["roots"] += w.count[g]["FwdOut"]
@@ -1126,6 +1177,11 @@ func main() {
 	}
 	bw := bufio.NewWriter(f)
 	rec := ab.NewRecorder(bw)
+	if *sys != "" {
+		// the engine of a whole-system run lives in the driver's goroutine, where a panic of the simulator cannot be
+		// recovered: every line is written through, so that the trace up to the crash survives
+		rec = ab.NewRecorder(f)
+	}
 	traces := 0
 	stats := map[string]int{}
 	begin := func(cfg Config) *world {
